@@ -62,10 +62,6 @@ func C02_History() {
 		roKinds: []int{2, 3, 5, 6}}
 	if vTier() == "thorough" {
 		cfg.maxOps = 5
-		cfg.caches = []int{0, 10000}
-		cfg.thresh = []int{0, 101}
-		cfg.roKinds = []int{0, 1, 2, 3, 4, 5, 6, 7}
-		cfg.roKeys = 3
 	}
 	h := vStartHist(cfg)
 	h.run()
@@ -107,10 +103,8 @@ func C02_InitialVersion() {
 	cfg := &vHistCfg{name: "C02_InitialVersion", nKeys: 2, lenVars: 1, valVars: 1, maxOps: 4,
 		ops:    []string{"set", "remove", "commit", "readonly"},
 		caches: []int{10000}, fast: []bool{false, true}, thresh: []int{0}, initVer: []uint64{7}, refHash: true,
-		roKinds: []int{0, 1, 2, 3, 4, 5, 6, 7}, roKeys: 2}
+		roKinds: []int{0, 1, 2, 3, 4, 5, 6, 7}, roKeys: 1}
 	if vTier() == "thorough" {
-		cfg.maxOps = 5
-		cfg.nKeys = 3
 		cfg.initVer = []uint64{7, 1, 4294967299}
 	}
 	vStartHist(cfg).run()
